@@ -364,7 +364,7 @@ func sameEvents(a, b []event) bool {
 		return false
 	}
 	for i := range a {
-		if a[i] != b[i] {
+		if a[i].id != b[i].id || a[i].path != b[i].path || a[i].uri != b[i].uri || a[i].err != b[i].err || a[i].repl != b[i].repl || a[i].hint != b[i].hint {
 			return false
 		}
 	}
